@@ -1163,7 +1163,7 @@ def search_spans(ctx: Ctx) -> tuple[SearchResult, SearchResult]:
 	resq.distinct = resq.cases
 	if not exercised and not res.findings and not resq.findings:
 		raise common.InfraError('no module was restored from the on-disk cache: the restored half of the search did not run')
-	res.note = 'every tree span begins at a token of FIRST(rule) and ends at a token of LAST(rule) (the generated, Lean-checked tables of translate/gen_grammar_first.py; token types from the parser\'s lexer); the cache-restored tree is compared with the cold parse node by node (every entry: span; sampled nodes: printed quotation); history: every 4th generated module is rewritten after its tree was cached (mtime changed only in its fractional second) and re-parsed by a fresh App on the same cache directory — the spans must delimit the current text; restrictions: positions inside a CPython STRING token are exempt from the boundary/content checks (quoted annotations are lexed by the grammar as QUOTE NAME QUOTE); CPython NAME tokens that are Python keywords or anonymous literals of grammar.lark, and `# type: ignore` comments (ignored by the grammar) need not be terminals; f-strings are folded into one STRING; the end of a multi-line CPython STRING token is recomputed from its start and text (CPython 3.12 miscounts it after non-ASCII text); stored files with CRLF line ends, CRLF + long strings and bare CR inside a leading comment / string are generated (every 6th module): all clauses are evaluated against the text on disk, only a line feed ends a line; the positions of CPython are not used for texts with a bare CR (its tokenizer turns it into a line break); a comment token that swallowed the CR of a CRLF line end is reported under its own key comment-span-includes-cr (first three modules) and compared with CPython without the CR; the same text is parsed as an in-memory module WITHOUT appending a line feed (every 3rd generated module, all end-of-file variants, the statement-free modules) and must give the spans of the stored file path by path; statement-free modules (empty, blank, white space, comment only) go through the cold→warm history; real files with CR are excluded; for a text without final line feed (lines+1, 1) counts as end of input'
+	res.note = 'every tree span begins at a token of FIRST(rule) and ends at a token of LAST(rule) (the generated, Lean-checked tables of translate/gen_grammar_first.py; token types from the parser\'s lexer); the cache-restored tree is compared with the cold parse node by node (every entry: span; sampled nodes: printed quotation); history: every 4th generated module is rewritten after its tree was cached (mtime changed only in its fractional second) and re-parsed by a fresh App on the same cache directory — the spans must delimit the current text; restrictions: positions inside a CPython STRING token are exempt from the boundary/content checks (quoted annotations are lexed by the grammar as QUOTE NAME QUOTE); CPython NAME tokens that are Python keywords or anonymous literals of grammar.lark, and `# type: ignore` comments (ignored by the grammar) need not be terminals; f-strings are folded into one STRING; the end of a multi-line CPython STRING token is recomputed from its start and text (CPython 3.12 miscounts it after non-ASCII text); stored files with CRLF line ends, CRLF + long strings and bare CR inside a leading comment / string are generated (every 6th module): all clauses are evaluated against the text on disk, only a line feed ends a line; the positions of CPython are not used for texts with a bare CR (its tokenizer turns it into a line break); a comment token that swallowed the CR of a CRLF line end is reported under its own key comment-span-includes-cr (first three modules) and compared with CPython without the CR; the same text is parsed as an in-memory module WITHOUT appending a line feed (every 3rd generated module, all end-of-file variants, the statement-free modules) and must give the spans of the stored file path by path; statement-free modules (empty, blank, white space, comment only) go through the cold→warm history; node level (check_node_level): the node of every sampled entry path and the nodes its expandable properties return (symbol, decorators, parameters, block … = what procedural() flattens; definitions decorated with @__actual__ / @Embed.alias are generated and occur in classes.py) — the node of an entry reports its entry span, a stand-in whose tokens are not the text of its entry (alias) and a virtual child (no entry) report no position or a span holding exactly their tokens, and are reported without quotation; real files with CR are excluded; for a text without final line feed (lines+1, 1) counts as end of input'
 	resq.note = 'an empty column range is shown by one caret at its position (the renderer\'s documented minimum); nodes whose span has no position (0,0,0,0) must not be quoted at all (regression of fix dc3e568); a None position or a raising renderer is a finding (regression of fix 46d0462); CRLF files excluded'
 	return res, resq
 
